@@ -147,7 +147,7 @@ def gen_queue(repo):
         problems.append("GenQueue: PeerCache.heads capacity is %s, expected PEER_HEAD_MAX" % pcap)
 
     key_args = " ".join(lf)
-    text = gen.HEADER + "Open Scope string_scope.\n"
+    text = gen.HEADER + "Local Open Scope string_scope.\n"
     text += "(* %s *)\n" % STORAGE
     text += "Definition QUEUE_CAPACITY : N := %s%%N.\n" % qcap
     text += "Definition location_fields : list string := %s.\n" % _coq_strings(lf)
